@@ -76,7 +76,7 @@ def run(chk):
                   'crashes, restarts (also faster than detection), cuts and heals, then all cuts healed, 24 quiet ticks and a drain of every queue; '
                   'non-trivial = a disturbance after some instance reached OPERATION; distinct = distinct schedule seed',
                   quick_cases=50, thorough_cases=700,
-                  sched_kwargs={'quiet_ticks': 24, 'nmax': 5, 'heal_at_end': True, 'rpc_names': ('end_sync', 'end_sync', 'end_sync')},
+                  sched_kwargs={'quiet_ticks': 24, 'nmax': 5, 'heal_at_end': True, 'rpc_names': ('end_sync', 'end_sync', 'end_sync'), 'split_start': 0.3},
                   extra_judge=j)
     chk.coverage['schedules_judged_at_quiescence'] = judged[0]
     chk.assumptions += ['"within a bounded number of ticks" is liveness under fair schedules: not proved; judged 24 quiet ticks after the last disturbance',
